@@ -7,7 +7,9 @@ sel="$@"
 for d in seeded/S*/; do
   id=$(basename $d | cut -d- -f1)
   if [ -n "$sel" ] && ! echo " $sel " | grep -q " $id "; then continue; fi
+  case $id in R*) continue;; esac
   props=$(python3 -c "import json;print(' '.join(json.load(open('$d/meta.json'))['caught_by']))")
+  [ -n "$FIRST_ONLY" ] && props=$(echo $props | cut -d' ' -f1)
   git -C /repo apply /verif/$d/patch.diff 2>/dev/null || { echo "$id: PATCH DOES NOT APPLY"; continue; }
   res=""
   for p in $props; do
